@@ -568,7 +568,8 @@ func (m *c11Model) a5Window(locs *c11Locs) {
 		}
 	}
 	// loop shape / start / end, per path entering the loop
-	var loopBad, startBad, endBad []string
+	var loopBad, startBad, endBad, boundBad, boundUnk []string
+	boundRoles := map[string]int{}
 	nEnter, nBack := 0, 0
 	startCases := map[string]int{}
 	var winPos = pos
@@ -696,6 +697,15 @@ func (m *c11Model) a5Window(locs *c11Locs) {
 			}
 		}
 		if inBody {
+			role, b, u := m.boundVerdict(st, w.E, g.I, guard(w.startN), len(st.as))
+			switch {
+			case b != "":
+				boundBad = append(boundBad, b)
+			case u != "":
+				boundUnk = append(boundUnk, u)
+			default:
+				boundRoles[role]++
+			}
 			dep := w.E.mentions(next.key())
 			for i := 0; i < len(st.as) && !dep; i++ {
 				if st.as[i].atom.mentions(next.key()) {
@@ -745,6 +755,22 @@ func (m *c11Model) a5Window(locs *c11Locs) {
 		r.Bad(c, winPos, "%s", strings.Join(c11Uniq(endBad), "; "))
 	} else {
 		r.OK(c, winPos, "within a group only parents[I] and, after deciding I < len(parents)-1, parents[I+1] are consulted; when the next parent version exists the bound of the window depends on it; the arithmetic of the bound is NOT decided")
+	}
+	c = "window@Compute bound"
+	switch {
+	case len(boundBad) > 0:
+		r.Bad(c, winPos, "%s", strings.Join(c11Uniq(boundBad), "; "))
+	case len(boundUnk) > 0:
+		r.Unknown(c, winPos, "%s", strings.Join(c11Uniq(boundUnk), "; "))
+	case len(boundRoles) == 0:
+		r.Unknown(c, winPos, "no path runs an iteration of the window loop")
+	default:
+		var rs []string
+		for k := range boundRoles {
+			rs = append(rs, k)
+		}
+		sortStrings(rs)
+		r.OK(c, winPos, "on every path the exclusive end of the window is derived from a child version by its role: %s (the arithmetic inside the selectors is NOT decided)", strings.Join(rs, "; "))
 	}
 	c = "window@Compute visible-only"
 	if len(visBad) > 0 {
